@@ -37,6 +37,10 @@ func (fio *FileIO) Sync() error {
 
 func (fio *FileIO) Close() error {
 	defer verifIO("close", fio.fd.Name(), 0)()
+	// 接口约定关闭之前默认进行持久化
+	if err := fio.Sync(); err != nil {
+		return err
+	}
 	return fio.fd.Close()
 }
 
